@@ -2,6 +2,7 @@ package server
 
 import (
 	"context"
+	"errors"
 	"sync"
 	"time"
 
@@ -199,6 +200,9 @@ func (s *Server) ServeRaw(w middleware.Transport, raw []byte, readTime time.Time
 		req, chain, carrier, ednsSlot := job.StrictSlots()
 		if req.ParseWire(raw, readTime, ednsSlot) {
 			carrier.reset(readTime.Add(s.queryTimeout()))
+			if s.answerExpired(carrier, w, raw) {
+				return true
+			}
 			s.serveWire(carrier, w, req, chain)
 			return true
 		}
@@ -237,7 +241,7 @@ func (s *Server) ServeRawInline(w middleware.Transport, raw []byte, readTime tim
 				s.served.Add(1)
 			}
 			carrier.reset(readTime.Add(s.queryTimeout()))
-			if s.pipeline == nil || contextutil.EffectiveError(carrier) != nil {
+			if s.pipeline == nil || s.answerExpired(carrier, w, raw) {
 				return true
 			}
 			s.pipeline.BindChain(chain)
@@ -270,7 +274,7 @@ func (s *Server) ServeRawReplay(w middleware.Transport, raw []byte, readTime tim
 			if s.pipeline == nil {
 				return true
 			}
-			if contextutil.EffectiveError(carrier) != nil {
+			if s.answerExpired(carrier, w, raw) {
 				return true
 			}
 			s.pipeline.BindChain(chain)
@@ -294,6 +298,29 @@ func (s *Server) ServeRawReplay(w middleware.Transport, raw []byte, readTime tim
 		f.FlushStaged()
 	}
 	s.serveMsgBy(context.Background(), w, m, true, readTime.Add(s.queryTimeout()))
+	return true
+}
+
+// answerExpired reports whether ctx is already over, and answers the
+// query with SERVFAIL when what ended it is the query deadline. The
+// deadline is anchored at the packet's arrival, so a query that waited
+// in the ready queue behind workers held by slow resolutions can reach
+// its turn expired; dropping it in silence made one client's dead zone
+// another client's timeout. A cancelled context means nobody is
+// listening any more and stays silent.
+func (s *Server) answerExpired(ctx context.Context, w middleware.Transport, raw []byte) bool {
+	err := contextutil.EffectiveError(ctx)
+	if err == nil {
+		return false
+	}
+	if errors.Is(err, context.DeadlineExceeded) {
+		m := new(dns.Msg)
+		if m.Unpack(raw) == nil && len(m.Question) == 1 {
+			servfail := new(dns.Msg)
+			servfail.SetRcode(m, dns.RcodeServerFailure)
+			_ = w.WriteMsg(servfail)
+		}
+	}
 	return true
 }
 
